@@ -57,21 +57,21 @@ func (t *messageTransformSubscriberDecorator) Subscribe(ctx context.Context, top
 	go func() {
 		verifhook.At("decorator.pump.start", topic)
 		for msg := range in {
-			verifhook.At("decorator.pump.recv", msg.UUID)
+			verifhook.At("decorator.pump.recv", verifKey(msg))
 			t.transform(msg)
-			verifhook.At("decorator.sub.before_out", msg.UUID)
-			verifhook.At("decorator.pump.before_send", msg.UUID)
+			verifhook.At("decorator.sub.before_out", verifKey(msg))
+			verifhook.At("decorator.pump.before_send", verifKey(msg))
 			select {
 			case out <- msg:
 			case <-ctx.Done():
 				// the subscription was cancelled and nobody reads: give the message up (it stays unsettled)
-				verifhook.At("decorator.pump.dropped_ctx", msg.UUID)
+				verifhook.At("decorator.pump.dropped_ctx", verifKey(msg))
 				continue
 			case <-t.closing:
-				verifhook.At("decorator.pump.dropped_closing", msg.UUID)
+				verifhook.At("decorator.pump.dropped_closing", verifKey(msg))
 				continue
 			}
-			verifhook.At("decorator.pump.sent", msg.UUID)
+			verifhook.At("decorator.pump.sent", verifKey(msg))
 		}
 		verifhook.At("decorator.pump.closing_out")
 		close(out)
